@@ -1266,7 +1266,7 @@ func typeRwFunction(t dsl.Type, write bool) string {
 				templateArguments[2*i+1] = typeRwFunction(c.Type, write)
 			}
 
-			return fmt.Sprintf("%sUnion<%s>", verb(write), strings.Join(templateArguments, ", "))
+			return fmt.Sprintf("::%sUnion<%s>", verb(write), strings.Join(templateArguments, ", "))
 		}()
 
 		switch td := t.Dimensionality.(type) {
